@@ -6,6 +6,17 @@ namespace FsDb.Tie
 theorem tie_codec_fileLen : Generated.Skel.codec_fileLen = Expected.codec_fileLen := rfl
 theorem tie_codec_marshalFile : Generated.Skel.codec_marshalFile = Expected.codec_marshalFile := rfl
 theorem tie_codec_unmarshalFile : Generated.Skel.codec_unmarshalFile = Expected.codec_unmarshalFile := rfl
+theorem tie_config_ParseConfig : Generated.Skel.config_ParseConfig = Expected.config_ParseConfig := rfl
+theorem tie_config_ParseEnv : Generated.Skel.config_ParseEnv = Expected.config_ParseEnv := rfl
+theorem tie_config_Storage_ParseEnv : Generated.Skel.config_Storage_ParseEnv = Expected.config_Storage_ParseEnv := rfl
+theorem tie_config_Storage_Valid : Generated.Skel.config_Storage_Valid = Expected.config_Storage_Valid := rfl
+theorem tie_config_WPool_ParseEnv : Generated.Skel.config_WPool_ParseEnv = Expected.config_WPool_ParseEnv := rfl
+theorem tie_config_defaultConfig : Generated.Skel.config_defaultConfig = Expected.config_defaultConfig := rfl
+theorem tie_config_defaults : Generated.Skel.config_defaults = Expected.config_defaults := rfl
+theorem tie_config_env_names : Generated.Skel.config_env_names = Expected.config_env_names := rfl
+theorem tie_config_type_Config : Generated.Skel.config_type_Config = Expected.config_type_Config := rfl
+theorem tie_config_type_Storage : Generated.Skel.config_type_Storage = Expected.config_type_Storage := rfl
+theorem tie_config_type_WPool : Generated.Skel.config_type_WPool = Expected.config_type_WPool := rfl
 theorem tie_file_IterateBeforeSeq : Generated.Skel.file_IterateBeforeSeq = Expected.file_IterateBeforeSeq := rfl
 theorem tie_file_LastBefore : Generated.Skel.file_LastBefore = Expected.file_LastBefore := rfl
 theorem tie_file_Latest : Generated.Skel.file_Latest = Expected.file_Latest := rfl
